@@ -35,11 +35,13 @@ row's cells, its body-control attributes and its bind source) built by the same 
 hint / itemset children of a control, the default text of an instance node, and the order of the model's children.
 
 Fragment (everything else is answered `unsupported`, deterministically): question types text / integer / decimal /
-date / note / calculate / select_one L / select_multiple L, begin/end group and repeat (nested); survey columns
-type, name, label, hint, relevant, required, constraint, calculation, read_only, constraint_message,
-required_message, appearance, default (static); one language (plain `label` / `hint` columns, no `${}` in them);
-`${name}` in logic cells only to questions that are direct children of the survey (absolute path, `Binds.subst`);
-names unique in the form; choices columns list_name / name / label; settings form_title / form_id / version.
+date / note / calculate / select_one L / select_multiple L (with `or_other`), audit rows (→ `meta/audit`), begin/end group
+and repeat (nested); survey columns type, name, label, hint, relevant, required, constraint, calculation, read_only,
+constraint_message, required_message, appearance, default (static → instance text, dynamic → `setvalue` in the model or
+in the enclosing repeat), repeat_count (`<repeat>_count` node / direct reference), disabled; one language; `${name}` in
+logic cells, defaults, repeat counts, labels and hints to any element at any depth (`Refs.refFor`: absolute and relative
+paths; `<output>` in labels through `Chan.mixedChannel`); choices columns list_name / name / label; settings form_title /
+form_id / version / `attribute::x`.  See notes/design_E2E.md for the `unsupported` list and the guards.
 -/
 namespace Pyxv.Convert
 open Pyxv Pyxv.Form Pyxv.Rows Pyxv.Xml
@@ -105,7 +107,7 @@ def canonRows (key : List (Str × List Str)) : List Cells → Except Err (List C
 def fragmentKeys : List Str :=
   [l!"type", l!"name", l!"label", l!"hint", l!"default", l!"bind::relevant", l!"bind::required",
    l!"bind::constraint", l!"bind::calculate", l!"bind::readonly", l!"bind::jr:constraintMsg",
-   l!"bind::jr:requiredMsg", l!"control::appearance", l!"control::jr:count"]
+   l!"bind::jr:requiredMsg", l!"control::appearance", l!"control::jr:count", l!"disabled"]
 
 /-- cells that may contain `${name}` (they reach a bind through `insert_xpaths`) -/
 def logicKeys : List Str :=
@@ -135,6 +137,10 @@ def rowOutside (r : Cells) : Option String :=
   | none => none
   | some t =>
     if plainTypes.contains t then none
+    else if t = l!"audit" then
+      -- an audit row (→ `meta/audit`, bind type binary); its parameters (`odk:` bind attributes) are outside the fragment
+      (if r.all (fun kv => kv.1 = l!"type" || kv.1 = l!"name" || kv.1 = l!"disabled") then none
+       else some "audit row with further cells")
     else match matchSelect t with
     | some (sel, _, _) =>
       if sel = l!"select one" || sel = l!"select all that apply" then none
@@ -313,11 +319,18 @@ def decorateAll (lists : List Str) : Nat → List Cells → Except Err (List ((N
       | .ok ds => .ok (((n, k), p) :: ds)
       | .error e => .error e
 
-/-- the decorated counterpart of `Rows.withMeta` (default settings: the meta block holds `instanceID`) -/
+/-- bind source of a generated child of the meta block: `instanceID` (xls2json.py 1393-1402), or `audit`
+    (the type-table bind of `audit`: `type="binary"`) -/
+def metaBq (root : Str) (d : QData) : Binds.Q :=
+  if d.name = l!"instanceID" then (Binds.instanceID root).q
+  else { name := d.name, tt := Binds.typeBind d.name, bind := none }
+
+/-- the decorated counterpart of `Rows.withMeta` (default settings: the meta block holds one `audit` per enabled audit
+    row and `instanceID`) -/
 def dWithMeta (root : Str) (rows : List Cells) (items : List DItem) : List DItem :=
   let mk := metaKids rows []
   if mk.isEmpty then items
-  else items ++ [DItem.sec .group (l!"meta") false {} (mk.map fun d => DItem.q d { bq := (Binds.instanceID root).q })]
+  else items ++ [DItem.sec .group (l!"meta") false {} (mk.map fun d => DItem.q d { bq := metaBq root d })]
 
 /-! ## 4. names, references -/
 
@@ -689,7 +702,8 @@ def settingsCols : List Str := [l!"form_title", l!"form_id", l!"version"]
 
 /-- the `Survey` fields the assembly reads (`Asm.Fields`) from the settings sheet -/
 def fieldsOf (wb : Workbook) : Except Err Asm.Fields :=
-  if !(wb.settingsCols.all settingsCols.contains) then .error (.unsupported "settings column outside the fragment") else
+  if !(wb.settingsCols.all fun h => settingsCols.contains h || startsWith h (l!"attribute::")) then
+    .error (.unsupported "settings column outside the fragment") else
   let st? : Except Settings.Fail Settings.Dict := match wb.settings with
     | none => .ok []
     | some row => Settings.dealias wb.settingsCols row
@@ -702,8 +716,18 @@ def fieldsOf (wb : Workbook) : Except Err Asm.Fields :=
     | .error (.err _) => .error (.rejected "settings")
     | .ok _ =>
       let sv := Settings.surveyOf (Settings.jsonRoot st {})
-      -- the fragment has no `instance::` / `attribute::` settings columns: no extra attributes on the instance root
-      .ok { name := sv.name, title := sv.title, idString := sv.idString, version := sv.version, instAttrs := [], attrib := [] }
+      -- `attribute::x` settings columns go on the instance root (`Asm.rootAttrs`: before `id`, `setAttribute` eviction);
+      -- no `instance::` columns in the fragment
+      .ok { name := sv.name, title := sv.title, idString := sv.idString, version := sv.version, instAttrs := [],
+            attrib := sv.attrib.getD [] }
+
+/-- `aliases.yes_no.get(row["disabled"])` is truthy: the row loop skips the row before anything else -/
+def rowDisabled (r : Cells) : Bool :=
+  match get r "disabled" with
+  | some v => yesNoTrue v
+  | none => false
+
+def activeRows (rows : List Cells) : List Cells := rows.filter fun r => !rowDisabled r
 
 /-- or_other selects append the choice `other` to their (shared) list (xls2json.py 1036-1078) -/
 def othersApplied : List Cells → List (Str × List Choices.Choice) → List (Str × List Choices.Choice)
@@ -759,8 +783,6 @@ def convertDoc (wb : Workbook) : Except Err Node :=
   | .error _ => .error (.unsupported "decorated tree (unreachable)")
   | .ok ditems =>
   let dall := dWithMeta root rows ditems
-  if metaKids rows [] ≠ [({ name := l!"instanceID", bind := true, control := false, node := true } : QData)] then
-    .error (.unsupported "meta block") else
   let els := elsOf root dall
   let rc : Refs.Chain := [(root, .group)]
   if !bindsSupL rc dall then .error (.unsupported "bind value outside the fragment") else
@@ -770,7 +792,7 @@ def convertDoc (wb : Workbook) : Except Err Node :=
   | some e => .error e
   | none =>
   let rootKids := instNodes (defaultsOfL [root] ditems) [root] (ntKids o.inst)
-  let insts := (Choices.staticInsts [] (othersApplied rows lists)).map Choices.instNode
+  let insts := (Choices.staticInsts [] (othersApplied (activeRows rows) lists)).map Choices.instNode
   let binds := bindNodesL els rc dall
   let body := bodyNodesL els [root] ditems
   let doc := Asm.assemble f none rootKids (insts ++ binds) body
